@@ -11,6 +11,7 @@ Core Lean only.
 -/
 import StarsimModel.Model.TimePar
 import StarsimModel.Generated.HazardExprs
+import StarsimModel.Generated.TimeDecls
 
 namespace StarsimModel.Hazard
 open StarsimModel.TimePar
@@ -134,5 +135,58 @@ abbrev Timeline := UnitT × Option Rat
     parameters.  Result: the timeline the parameters of module `j` end up linked to. -/
 def linkedTimeline (reach : Bool) (mods : List Timeline) (j : Nat) : Option Timeline :=
   if reach then (match mods[j]? with | some _ => mods.head? | none => none) else mods[j]?
+
+/-! ### Round 3: how a per-unit-time parameter is WRITTEN (declaration → object) and how a mixing pool consumes beta -/
+
+/-- the three spellings of a time parameter of a module:
+    `plain`   `ss.dur(10, unit='day')`, `ss.days(10)`, `ss.rate(0.05, 'week')`, `ss.beta(0.1, 'year')`;
+    `inside`  `ss.lognorm_ex(mean=ss.dur(10, unit='day'))` (the time parameter is a parameter of the distribution);
+    `wrapped` `ss.dur(ss.lognorm_ex(mean=10), unit='day')`, `ss.days(ss.lognorm_ex(mean=10))` (`TimePar.__new__` builds the
+              time parameter for the distribution's first parameter from the caller's keywords) -/
+inductive Form where
+  | plain | inside | wrapped
+  deriving DecidableEq, Repr
+
+/-- the unit that reaches `TimePar.__init__`: for the wrapped spelling a keyword that `TimePar.__new__` does not forward
+    (`lost`, regenerated from the signature and the wrapping call: `Gen.wrapLost`) is dropped -/
+def declUnitReaching (lost : List String) (f : Form) (declared : UnitT) : UnitT :=
+  match f with
+  | .wrapped => if lost.contains "unit" then none else declared
+  | _ => declared
+
+/-- the (kind, unit) of a shortcut function `ss.days / years / perday / peryear` from the regenerated table; a shortcut
+    that does not forward its value or the parent keywords is not understood -/
+def shortcutOf (table : List (String × String × String × Bool)) (name : String) : Option (String × String) :=
+  match table.find? (fun r => r.1 == name) with
+  | some (_, cls, unit, true) => some (cls, unit)
+  | _ => none
+
+/-- the object a declaration creates (`TimePar.__init__`: `self_dt = 1`, no parent yet) -/
+def declare (lost : List String) (f : Form) (k : Kind) (v : Val Rat) (declared : UnitT) : Except Err (TP Rat) :=
+  mk k v (declUnitReaching lost f declared) none none (some 1)
+
+/-- the declaration after `Module.init_time` linked it to the module timeline `(pu, pdt)` -/
+def declareInit (lost : List String) (f : Form) (k : Kind) (v : Val Rat) (declared : UnitT) (pu : UnitT) (pdt : Option Rat) (updVals : Bool) :
+    Except Err (TP Rat) :=
+  match declare lost f k v declared with
+  | .error e => .error e
+  | .ok t =>
+    match init ratOps t true pu pdt none updVals true with
+    | (t', .ok ()) => .ok t'
+    | (_, .error e) => .error e
+
+/-- `MixingPool.step`: `if isinstance(beta, T): beta = beta.<field>` — which attribute of the time parameter is multiplied into
+    the acquisition probability (`Gen.poolBetaField`, regenerated): `values` is the per-step probability, `v` the declared
+    per-unit-time number -/
+def poolBeta (field : String) (t : TP Rat) : Except Err (Val Rat) :=
+  if field = "values" then (match t.values with | some x => .ok x | none => .error .type)
+  else if field = "v" then .ok t.v
+  else .error .type
+
+/-- `p = beta * trans * acq` for one destination agent -/
+def poolProb (field : String) (t : TP Rat) (trans acq : Rat) : Except Err (Val Rat) :=
+  match poolBeta field t with
+  | .error e => .error e
+  | .ok b => .ok (b.map (fun x => x * trans * acq))
 
 end StarsimModel.Hazard
